@@ -60,12 +60,24 @@ def items(tier):
         out.append({"case": case, "bound": bound})
         if n <= 3 and case["jobs"] >= 2 and not case["fails"]:
             out.append({"case": dict(case, unrelated=True), "bound": 1})
+    out.append({"kind": "kernel-semantics"})
+    for case in rungrid.conformance_cases(tier):
+        out.append({"case": case, "bound": 0, "conform": True})
     return out
 
 
 def run_item(item, tier):
+    if item.get("kind") == "kernel-semantics":
+        from .. import conformance
+        rules = conformance.kernel_semantics()
+        bad = [r for r in rules if not r[1]]
+        if bad:
+            raise RuntimeError("virtual kernel rule contradicted by Linux: %r" % (bad,))
+        return {"evals": len(rules), "traces_validated": len(rules), "sigs": {"rule:" + r[0] for r in rules},
+                "states": set(), "transitions": 0, "violations": [], "counters": {"kernel_rules_checked": len(rules)},
+                "sample": {"kernel_rules": [r[0] for r in rules]}}
     return rungrid.explore_case(item["case"], item["bound"], [mon],
-                                max_exec=60000 if tier == "quick" else 400000)
+                                max_exec=60000 if tier == "quick" else 400000, conform=bool(item.get("conform")))
 
 
 def replay(artefact):
